@@ -127,7 +127,7 @@ var c09Share = core.Mon(c09, "concurrent-share", func(w *core.W, c *RaceCfg) {
 	}
 	var trees []*shared
 	for _, s := range srcs {
-		sc, err := formula.ParseSourceCode([]byte(s))
+		sc, err := hostParse([]byte(s), true)
 		if err != nil {
 			continue
 		}
@@ -221,7 +221,7 @@ var c09Share = core.Mon(c09, "concurrent-share", func(w *core.W, c *RaceCfg) {
 					// a text of its own, valid
 					// fresh identifiers of several lengths, keywords and builtins: the parser's tables are shared
 					own := fmt.Sprintf("n0 + %d * len(s0) - %d + (typeof v%dx%d == 'object' ? abcdef : 0) + uniq_%d_%d + (this.k%d ?? 0)", g, it, g, it, g, it, it%7)
-					sc, err := formula.ParseSourceCode([]byte(own))
+					sc, err := hostParse([]byte(own), true)
 					atomic.AddInt64(&parses, 1)
 					if err != nil {
 						report(mismatch{g, -1, "own parse", "parses", err.Error()})
@@ -231,7 +231,7 @@ var c09Share = core.Mon(c09, "concurrent-share", func(w *core.W, c *RaceCfg) {
 				case 3:
 					// a text of its own, invalid: diagnostics are formatted on its own source object
 					bad := fmt.Sprintf("f(%d,\n\n  %d +* )\r\n'open", g, it)
-					sc, err := formula.ParseSourceCode([]byte(bad))
+					sc, err := hostParse([]byte(bad), true)
 					atomic.AddInt64(&errParses, 1)
 					if err == nil {
 						report(mismatch{g, -1, "own error parse", "an error", "accepted"})
